@@ -59,6 +59,7 @@ def verdict (j : Json) (allTypedefs : Bool) : String :=
   let d := collect j
   let fault := jstr j "fault"
   if fault = "dev-race" || fault = "import-self" then "any"
+  else if fault = "orphan-submodule" then "err:ref"      -- a submodule of a module that is not among those supplied
   else if hasDup (d.tdefs.map (·.1)) || hasDup (d.groups.map (·.1)) then "err:dup"
   else if d.includes.any (fun (_, is) => is.any fun i => (d.includes.lookup i).isNone) then "err:ref"
   else if anyCycle d.includes (d.includes.map (·.1)) then "err:import-cycle"
